@@ -19,6 +19,7 @@ THEOREMS = [
     "Typedpy.C13.elabField_future_irrelevant", "Typedpy.C13.fixed_future_long",
     "Typedpy.C13.counterexample_falsy_default_kw",
     "Typedpy.C13.counterexample_union_duplicate", "Typedpy.C13.statement_false",
+    "Typedpy.C13.none_first_equiv", "Typedpy.C13.none_inner_optional", "Typedpy.C13.hasNoneOpt_position",
     "Typedpy.C13.equiv_example",
 ]
 RULE = ("class bodies of 1-3 fields; each field an abstract meaning tree (scalar / constrained field literal / bare or "
@@ -29,7 +30,12 @@ RULE = ("class bodies of 1-3 fields; each field an abstract meaning tree (scalar
         "combined in up to 16/40 class variants, each with and without `from __future__ import annotations`; every "
         "variant exec'd from SOURCE TEXT, dumped, and run on one shared stream of kwargs (valid, boundary, type "
         "confusion, corruption, None, missing) through the real constructor and Serializer; non-trivial = a meaning "
-        "of depth >= 2, a constrained literal or more than one field; distinct by sha256 of the case")
+        "of depth >= 2, a constrained literal or more than one field; distinct by sha256 of the case. "
+        "A None alternative is written in EVERY position (Optional[T], Union[T, None], Union[None, T], T | None, "
+        "None | T, AnyOf[None, T], Union[A, None, B], A | None | B, Union[A, Optional[B]], Optional[A] | B ...): "
+        "randomly at any depth, plus a directed stream (7 quick / 18 thorough cases) that enumerates all forms x "
+        "positions x bracketings for a few operand types; such a field is optional in every spelling (by itself "
+        "where typedpy documents it, through _optional otherwise)")
 ASSUMPTIONS = [
     "vocabulary: int/str/float/bool/Any, list/set/frozenset/deque and their typing aliases, dict/Dict/Map, Optional/Union/AnyOf/|, "
     "constrained Integer/Float/Number/String/Enum literals; tuple, date/time and Structure-valued fields are not in the spelling grammar",
@@ -53,7 +59,7 @@ def pre_build():
 
 
 def cases(rng, tier):
-    return S.gen_cases(rng, tier, 600 if tier == "quick" else 3500)
+    return S.gen_cases(rng, tier, 480 if tier == "quick" else 3200)
 
 
 def search_cases(rng, tier):
